@@ -26,7 +26,7 @@ pub fn def() -> PropDef {
                chunk, unlimited}, maximal item size in {64 B, 1 KiB, 64 KiB}, content seed) drive an on-the-fly \
                generated stream (never materialised; DIMACS streams come in three shapes: clauses with occasional \
                comments, a header whose declared clause count is reached after 100 clauses followed only by comment \
-               and blank lines, one clause spread over the whole stream with comment lines in between, fixed-width 16-byte clause lines behind a 15-byte comment so that power-of-two reads always end inside a token; BTOR2 streams optionally end with a malformed justice line declaring 6*10^7 conditions) of N bytes with N >= 64 x bound through the parser while a \
+               and blank lines, one clause spread over the whole stream with comment lines in between, fixed-width 16-byte clause lines behind a 15-byte comment so that power-of-two reads always end inside a token; BTOR2 streams optionally end with a malformed justice line declaring 6*10^7 conditions, binary AIGER streams optionally with a multi-megabyte run of continuation bytes in place of the last gate; the AIGER section readers also run in skip mode, where all but the first gate are left to symbols() to pass over; one configuration in six drives the DeferredReader directly - request_more/advance, request(k)/advance(k), or byte look-ahead to the next LF - instead of a parser) of N bytes with N >= 64 x bound through the parser while a \
                counting global allocator records the peak live heap. Oracle: peak <= 16 x chunk + 16 x max_item + \
                64 KiB, and the parse ends cleanly. Non-trivial: N >= 64 x bound and items of the maximal size \
                occurred (every 500th item is padded to it). evaluations = configurations run.",
@@ -64,6 +64,15 @@ pub struct Config {
     /// over the whole stream with comment lines in between.
     #[serde(default)]
     pub shape: u8,
+    /// AIGER section readers only: read the first entry of every section and let the section
+    /// transition functions skip the rest.
+    #[serde(default)]
+    pub skip: bool,
+    /// Not 0: no parser; the reader is driven directly over a shape-0 CNF stream.
+    /// 1: `request_more()` then `advance(buf_len())`; 2: `request(k)` then `advance(k)` with
+    /// generated k; 3: look for the next LF with `request_byte_at_offset`, advance past it.
+    #[serde(default)]
+    pub direct: u8,
 }
 
 fn mix(seed: u64, i: u64) -> u64 {
@@ -203,6 +212,7 @@ impl Stream {
         let items = (cfg.n / avg).max(10);
         let header = match (cfg.parser, cfg.shape) {
             (ParserId::Aag, _) => Some(format!("aag {items} 0 0 0 {items}\n").into_bytes()),
+            (ParserId::Aig, 1) => Some(format!("aig {0} 0 0 0 {0}\n", items + 1).into_bytes()),
             (ParserId::Aig, _) => Some(format!("aig {items} 0 0 0 {items}\n").into_bytes()),
             (ParserId::Cnf, 1) => Some(b"p cnf 60000000 100\n".to_vec()),
             (ParserId::Wcnf, 1) => Some(b"p wcnf 60000000 100 9\n".to_vec()),
@@ -251,6 +261,17 @@ impl Read for Stream {
                     self.idx += 1;
                     continue;
                 }
+                if self.idx >= self.items && self.cfg.shape == 1 && self.cfg.parser == ParserId::Aig {
+                    // a damaged and-gate section: a long run of continuation bytes (the header
+                    // declares one gate more than there are)
+                    if (self.idx - self.items) * (64 << 10) >= self.cfg.n / 2 {
+                        break;
+                    }
+                    self.cur = vec![0x80 | (self.idx as u8 & 0x7f); 64 << 10];
+                    self.pos = 0;
+                    self.idx += 1;
+                    continue;
+                }
                 if self.idx >= self.items {
                     break;
                 }
@@ -283,10 +304,13 @@ pub fn bound(cfg: &Config) -> usize {
 }
 
 pub fn check(cfg: &Config, obs: &mut Obs) -> CheckResult {
+    if cfg.direct != 0 {
+        return check_direct(cfg, obs);
+    }
     let spec = Spec {
         parser: cfg.parser,
         lit: 3,
-        flag: false,
+        flag: cfg.skip && matches!(cfg.parser, ParserId::Aag | ParserId::Aig),
     };
     let measured = alloc::installed();
     let w = alloc::window();
@@ -309,11 +333,13 @@ pub fn check(cfg: &Config, obs: &mut Obs) -> CheckResult {
         obs.class("n>=64xbound");
     }
     let p = cfg.parser.name();
-    let malformed_tail = cfg.parser == ParserId::Btor2 && cfg.shape == 1;
+    let malformed_tail = matches!(cfg.parser, ParserId::Btor2 | ParserId::Aig) && cfg.shape == 1;
+    obs.class_if(spec.flag, "aiger-sections-skipped");
+    obs.class_if(malformed_tail, "malformed-tail");
     if malformed_tail && !matches!(t.fin, Final::Syntax { .. }) {
         fail!(
             format!("C10:{p}:stream-rejected"),
-            "{p}: the stream ends with a malformed justice line, expected a syntax error, got {}; config {:?}",
+            "{p}: the stream ends with a malformed justice line / a run of continuation bytes, expected a syntax error, got {}; config {:?}",
             t.fin.short(),
             cfg
         );
@@ -332,6 +358,7 @@ pub fn check(cfg: &Config, obs: &mut Obs) -> CheckResult {
         (true, 1) => 101, // header + the declared 100 clauses
         (true, 2) => 1,   // the one long clause
         (true, 3) => items - 1, // the first line is a comment
+        _ if spec.flag => 2,    // header and the first and gate; the rest is skipped by symbols()
         _ => items + if cfg.parser.is_aiger() { 1 } else { 0 },
     };
     obs.class(format!("shape/{}", cfg.shape));
@@ -351,6 +378,96 @@ pub fn check(cfg: &Config, obs: &mut Obs) -> CheckResult {
             peak,
             delivered,
             items,
+            b,
+            cfg.chunk.unwrap_or(16 << 10),
+            cfg.max_item,
+            cfg
+        );
+    }
+    Ok(())
+}
+
+/// The reader itself, driven the way a hand-written scanner would (no parser on top).
+fn check_direct(cfg: &Config, obs: &mut Obs) -> CheckResult {
+    let measured = alloc::installed();
+    let w = alloc::window();
+    let (src, log, items) = Stream::new(cfg.clone());
+    let mut reader = DeferredReader::from_read(src);
+    if let Some(c) = cfg.chunk {
+        reader.set_chunk_size(c);
+    }
+    let mut advanced = 0u64;
+    let mut step = 0u64;
+    match cfg.direct {
+        1 => {
+            while reader.request_more() {
+                let n = reader.buf_len();
+                reader.advance(n);
+                advanced += n as u64;
+            }
+            let n = reader.buf_len();
+            reader.advance(n);
+            advanced += n as u64;
+        }
+        2 => loop {
+            step += 1;
+            let k = 1 + (mix(cfg.seed, step) % (2 * cfg.max_item as u64 + 1)) as usize;
+            let got = reader.request(k).len();
+            if got == 0 {
+                break;
+            }
+            let n = got.min(k);
+            reader.advance(n);
+            advanced += n as u64;
+        },
+        _ => loop {
+            let mut off = 0;
+            let end = loop {
+                match reader.request_byte_at_offset(off) {
+                    None => break off,
+                    Some(b'\n') => break off + 1,
+                    Some(_) => off += 1,
+                }
+            };
+            if end == 0 {
+                break;
+            }
+            reader.advance(end);
+            advanced += end as u64;
+        },
+    }
+    let clean = reader.check_io_error().is_ok() && reader.is_at_end();
+    let position = reader.position() as u64;
+    drop(reader);
+    let peak = w.peak();
+    let delivered = log.borrow().delivered as u64;
+    let b = bound(cfg);
+    obs.class(format!("direct/{}", cfg.direct));
+    obs.class(format!("chunk/{}", cfg.chunk.map_or("default".to_string(), |c| c.to_string())));
+    obs.class(format!("read/{:?}", cfg.read));
+    if delivered >= 64 * b as u64 && items > 600 {
+        obs.nontrivial();
+        obs.class("n>=64xbound");
+    }
+    if !clean || advanced != delivered || position != delivered {
+        fail!(
+            "C10:direct:stream-lost",
+            "direct mode {}: {} bytes delivered, {} advanced over, position() = {}, clean end: {}; config {:?}",
+            cfg.direct,
+            delivered,
+            advanced,
+            position,
+            clean,
+            cfg
+        );
+    }
+    if measured && peak > b {
+        fail!(
+            "C10:direct:memory",
+            "reader driven directly (mode {}): peak live heap {} bytes while streaming {} bytes exceeds the bound {} = 16 x chunk {} + 16 x max item {} + 64 KiB; config {:?}",
+            cfg.direct,
+            peak,
+            delivered,
             b,
             cfg.chunk.unwrap_or(16 << 10),
             cfg.max_item,
@@ -387,8 +504,11 @@ fn config_strategy(quick: bool) -> impl Strategy<Value = Config> {
         proptest::sample::select(vec![64usize, 1 << 10, 64 << 10]),
         any::<u64>(),
         prop_oneof![2 => Just(0u8), 1 => Just(1u8), 1 => Just(2u8), 1 => Just(3u8)],
+        any::<bool>(),
+        prop_oneof![5 => Just(0u8), 1 => 1u8..=3],
     )
-        .prop_map(move |(parser, chunk, read, max_item, seed, shape)| {
+        .prop_map(move |(parser, chunk, read, max_item, seed, shape, skip, direct)| {
+            let parser = if direct != 0 { ParserId::Cnf } else { parser };
             let max_item = if matches!(parser, ParserId::Aag | ParserId::Aig) { 64 } else { max_item };
             let mut cfg = Config {
                 parser,
@@ -397,8 +517,12 @@ fn config_strategy(quick: bool) -> impl Strategy<Value = Config> {
                 max_item,
                 seed,
                 n: 0,
+                skip: skip && matches!(parser, ParserId::Aag | ParserId::Aig),
+                direct,
                 shape: match (parser, shape) {
+                    _ if direct != 0 => 0,
                     (ParserId::Btor2, 1) => 1,
+                    (ParserId::Aig, 1) => 1,
                     (ParserId::Cnf, s) => s,
                     (p, 3) if p.is_dimacs() => 0,
                     (p, s) if p.is_dimacs() => s,
